@@ -3,7 +3,7 @@ import contextlib, io, json, logging, os, re
 from ..core import Violation
 
 ID = 'C11'
-MODULES = ['OFModel.Config.Grammar', 'OFModel.Config.Base', 'OFModel.Config.IO', 'OFModel.Config.Webvis', 'OFModel.Config.REST', 'OFModel.Config.Util']
+MODULES = ['OFModel.Config.Grammar', 'OFModel.Config.Base', 'OFModel.Config.IO', 'OFModel.Config.Webvis', 'OFModel.Config.REST', 'OFModel.Config.Util', 'OFModel.Config.MQTTOut']
 RULE = ('(a) grammar functions: random strings over the grammar alphabet (",;>!= no- identifiers digits . e - quotes brackets, ASCII and Unicode blanks), '
         'structured-valid and malformed, fed to split_commas_maybe / json_getval / parse_topics (mapping True/False/None, max_topics None/1/2/3) / parse_options '
         'and to the Lean model; (b) render->parse round trips: valid topic/option lists rendered BY THE MODEL and parsed BY THE IMPLEMENTATION; '
@@ -16,19 +16,23 @@ ASSUMPTIONS = ['option names and \\w are ASCII in generated cases (the model tre
                'validators that only raise or pass (parse_time_interval / parse_date_and_or_time for exit_after; parse_segtime; os.path.isdir + abspath) are '
                'evaluated by the harness on the real code and passed to the model as parameters; theorem hypotheses on them: parse_segtime never returns a str '
                '(SegtimeNotStr), the absolute path of a directory is a directory and its own absolute path (IsDirStable)',
-               'Recorder and REST idempotence is stated up to dict key order (SameEntries: every key reads the same), which is Python dict equality; the other seven '
-               'theorems are literal equality of insertion-ordered dicts',
+               'Recorder, REST and MQTTOut idempotence is stated up to dict key order (SameEntries: every key reads the same), which is Python dict equality; the other '
+               'seven theorems are literal equality of insertion-ordered dicts',
                'keys starting with "_" (Recorder._rules) are hidden from every comparison, as FilterConfig.clean() does, and are not modelled',
-               'MQTTOut client_id=True (random id), Webvis FILTER_ENABLE_JSON / FILTER_SLEEP_INTERVAL and the other environment-variable defaults are excluded',
+               'MQTTOut client_id=True (the code stores f"{id}_{rndstr(8)}", a random id) is not generated and the model answers it with "other" (outside the '
+               'comparison); Webvis FILTER_ENABLE_JSON / FILTER_SLEEP_INTERVAL and the other environment-variable defaults are excluded',
                'REST: the model carries both behaviours (with / without pending fixes C11-rest-base-path, C11-rest-endpoint-dicts); the harness probes the tree and '
                'compares with the matching one; theorems are about the fixed behaviour, the pinned behaviour is kept as decided negative witnesses',
-               'MQTTOut has no Lean model: it is covered by the implementation-level oracles (idempotence, JSON-copy idempotence, text == documented structure) only']
+               'MQTTOut model (OFModel/Config/MQTTOut.lean): every branch and error of normalize_config is transcribed; outside the model (answer "other", counted as '
+               'class:MQTTOut:outside-model, still covered by the implementation-level oracles): client_id=True, `mappings` given as a dict or as a tuple whose first '
+               'item is not a dict, mapping `options` that are neither None, a dict nor a number, destination topics that are neither None nor str in the duplicate '
+               'check (0 == False == 0.0 hash alike), `outputs` given as a dict, int() of a port text with underscores, JSON compound option values (blob)']
 TRUSTED = ['Python str.strip()/split(), re `^(?:no-)?[a-zA-Z_]\\w*(?:=|$)` and json.loads on scalars are transcribed in OF.Config (Grammar.lean); differential-tested on every run']
 
 CLASSES = ['Filter', 'Util', 'Recorder', 'VideoIn', 'VideoOut', 'ImageIn', 'ImageOut', 'MQTTOut', 'REST', 'Webvis']
 # classes whose C11_nf_<Class>/C11_idempotent_<Class> theorem is proved; the others are covered at differential level only
-CLASSES_PROVED = ['Filter', 'Util', 'Recorder', 'VideoIn', 'VideoOut', 'ImageIn', 'ImageOut', 'REST', 'Webvis']
-CLASSES_MODELLED = ['Filter', 'VideoIn', 'ImageIn', 'VideoOut', 'ImageOut', 'Webvis', 'Recorder', 'REST', 'Util']
+CLASSES_PROVED = ['Filter', 'Util', 'Recorder', 'VideoIn', 'VideoOut', 'ImageIn', 'ImageOut', 'MQTTOut', 'REST', 'Webvis']
+CLASSES_MODELLED = ['Filter', 'VideoIn', 'ImageIn', 'VideoOut', 'ImageOut', 'Webvis', 'Recorder', 'REST', 'Util', 'MQTTOut']
 
 
 # ------------------------------------------------------------------------------------------------ canonical forms
